@@ -2,7 +2,7 @@
 # usage: tools/keepseed2.sh <ID> <a|b>  -- confirms a round-2 sub-agent change (from /tmp/seed/<ID>-out/<x>) in a scratch
 # worktree of /repo HEAD and keeps it under /verif/seeded/<ID>-2<x>
 export GOFLAGS=-mod=mod GOPROXY=off GOSUMDB=off GOTOOLCHAIN=local
-id="$1"; x="$2"; name="$id-2$x"; src=/tmp/seed/$id-out/$x; wt=/tmp/seedchk-$name
+id="$1"; x="$2"; round="${3:-2}"; sd=/tmp/seed; [ "$round" = 3 ] && sd=/tmp/seed3; name="$id-$round$x"; src=$sd/$id-out/$x; wt=/tmp/seedchk-$name
 set -e
 test -f $src/patch.diff && test -f $src/meta.json
 rm -rf $wt; git -C /repo worktree add -q --detach $wt HEAD
@@ -29,7 +29,7 @@ m=json.load(open('$src/meta.json'))
 m['confirmed']={'demo_on_unchanged_exit':$base,'demo_with_change_exit':$mut,'suite_with_change_exit':$suite,
   'how':'fresh worktree of /repo at $head under /tmp; demo run before and after git apply; full suite (go test -vet=off -count=1 ./...) with the change; worktree removed'}
 m['demo_file']='zz_demo_test.go.txt (rename to zz_demo_test.go inside demo_pkg_dir)'
-m['round']=2
+m["round"]='$round'
 json.dump(m,open('/verif/seeded/$name/meta.json','w'),indent=1)
 P
   echo KEPT /verif/seeded/$name
